@@ -3,5 +3,11 @@ import StepupModel.Proto
 import StepupModel.Props.C09
 import StepupModel.Props.C13
 import StepupModel.Props.C16
+import StepupModel.Props.C17
 import StepupModel.Props.C18
 import StepupModel.Props.C20
+import StepupModel.Props.C08
+import StepupModel.Props.C10
+import StepupModel.Props.C11
+import StepupModel.Props.C12
+import StepupModel.Props.C15
